@@ -60,13 +60,41 @@ fn good_children(t: &mut Tape, spec: &SpecTable, chain: &[u64], n: usize) -> Vec
 }
 
 pub fn gen_failing(t: &mut Tape, spec: &SpecTable, open: &[u64]) -> Option<(WOp, &'static str)> {
-    match t.below(7) {
+    match t.below(8) {
         0 => bad_child(t, spec, open).map(|f| (WOp::Write(f, WOpt::Default), "tag_not_allowed_here")),
         1 => {
             // width too small for a string/binary payload (w = 1: length >= 127; w = 2: >= 16383)
             let cands: Vec<&Elem> = spec.elems.iter().filter(|e| matches!(e.ty, Ty::S | Ty::B) && ref_match(&e.path, open)).collect();
             let (id, ty) = if cands.is_empty() { (gen_unknown_id(t, spec), None) } else { let e = cands[t.below(cands.len())]; (e.id, Some(e.ty)) };
             let (w, len) = if t.chance(1, 6) { (2u8, 16383 + t.below(3)) } else { (1u8, 127 + t.below(40)) };
+            // the same for a Full master: its children are accepted and buffered one by one, the width only turns out too small when the master is closed
+            if t.chance(1, 3) {
+                let ms: Vec<(&Elem, Vec<&Elem>)> = spec
+                    .elems
+                    .iter()
+                    .filter(|m| m.ty == Ty::Master && ref_match(&m.path, open))
+                    .map(|m| {
+                        let mut chain = open.to_vec();
+                        chain.push(m.id);
+                        (m, spec.elems.iter().filter(|e| matches!(e.ty, Ty::S | Ty::B) && ref_match(&e.path, &chain)).collect::<Vec<_>>())
+                    })
+                    .filter(|x| !x.1.is_empty())
+                    .collect();
+                if !ms.is_empty() {
+                    let (m, kids) = &ms[t.below(ms.len())];
+                    let mut chain = open.to_vec();
+                    chain.push(m.id);
+                    // 1-3 children that together reach the limit (header bytes count too, so the payloads alone already suffice)
+                    let k = 1 + t.below(3);
+                    let mut ch = Vec::new();
+                    for j in 0..k {
+                        let e = kids[t.below(kids.len())];
+                        let l = if j == 0 { len - (len / k) * (k - 1) } else { len / k };
+                        ch.push(Flat::Leaf(e.id, if e.ty == Ty::S { Payload::S(gen_string(t, l)) } else { Payload::B(gen_binary(t, l)) }));
+                    }
+                    return Some((WOp::Write(Flat::Full(m.id, ch), WOpt::Width(w)), "full_master_content_not_representable_in_width"));
+                }
+            }
             let p = match ty {
                 Some(Ty::S) => Payload::S(gen_string(t, len)),
                 Some(_) => Payload::B(gen_binary(t, len)),
@@ -108,6 +136,46 @@ pub fn gen_failing(t: &mut Tape, spec: &SpecTable, open: &[u64]) -> Option<(WOp,
             let outer: Vec<u64> = open.iter().rev().skip(1).copied().filter(|m| open.last() != Some(m)).collect();
             let id = if !outer.is_empty() && t.chance(2, 3) { outer[t.below(outer.len())] } else { wrong[t.below(wrong.len())] };
             Some((WOp::Write(Flat::End(id), WOpt::Default), "end_of_not_innermost_master"))
+        }
+        5 => {
+            // Full master allowed here with a child that closes the master itself (or the enclosing one), or opens a master and never closes it:
+            // the call must fail (the master cannot be closed at the end), and nothing of it may have been handed over by then
+            let ms: Vec<&Elem> = spec.elems.iter().filter(|e| e.ty == Ty::Master && ref_match(&e.path, open)).collect();
+            if ms.is_empty() {
+                return None;
+            }
+            let m = ms[t.below(ms.len())];
+            // a master nested in a master of the same id could be closed in place of the Full one: then the call need not fail
+            if open.last() == Some(&m.id) {
+                return None;
+            }
+            let mut chain = open.to_vec();
+            chain.push(m.id);
+            let n = t.below(4);
+            let mut ch = good_children(t, spec, &chain, n);
+            let bad = match t.below(3) {
+                0 => Flat::End(m.id),
+                1 => match open.last() {
+                    Some(o) => Flat::End(*o),
+                    None => Flat::End(m.id),
+                },
+                _ => {
+                    let xs: Vec<&Elem> = spec.elems.iter().filter(|e| e.ty == Ty::Master && e.id != m.id && ref_match(&e.path, &chain)).collect();
+                    if xs.is_empty() {
+                        Flat::End(m.id)
+                    } else {
+                        Flat::Start(xs[t.below(xs.len())].id)
+                    }
+                }
+            };
+            let pos = match t.below(3) {
+                0 => 0,
+                1 => ch.len() / 2,
+                _ => ch.len(),
+            };
+            ch.insert(pos.min(ch.len()), bad);
+            let opt = if t.chance(1, 4) { WOpt::Width(1 + t.below(8) as u8) } else { WOpt::Default };
+            Some((WOp::Write(Flat::Full(m.id, ch), opt), "full_with_stray_end_or_unclosed_start"))
         }
         _ => {
             // Full master allowed here whose k-th child is not allowed
@@ -397,7 +465,7 @@ pub fn run(rc: &mut RunCtx) {
     rc.run_pt(STAGES[0], rc.pick(480_000, 2_000_000), (96, 640));
     rc.run_pt(STAGES[1], rc.pick(160_000, 800_000), (96, 500));
     rc.require_label("rejected_master_end", "width1_content_127plus", 300_000);
-    for l in ["tag_not_allowed_here", "size_not_representable_in_width", "unknown_size_on_non_master", "malformed_raw_id", "unknown_size_on_non_master_deprecated_call", "end_of_not_innermost_master", "full_with_invalid_child", "failing_call_inside_open_master"] {
+    for l in ["tag_not_allowed_here", "size_not_representable_in_width", "unknown_size_on_non_master", "malformed_raw_id", "unknown_size_on_non_master_deprecated_call", "end_of_not_innermost_master", "full_with_invalid_child", "full_with_stray_end_or_unclosed_start", "full_master_content_not_representable_in_width", "failing_call_inside_open_master"] {
         rc.require_label("rejected_calls", l, 20_000);
     }
     if !rc.quick() {
